@@ -22,7 +22,13 @@ package api //nolint:revive
 // C06: the segment-deletion endpoint instantiates the record path only with a name that is
 // a configured path or a valid path name (FindPathConf succeeded for exactly that name).
 
+// C31: the file removed is the one named after the requested instant (whatever offset it was written with).
+
 //@ func (a *API) onRecordingDeleteSegment
-//@   property C06
+//@   property C06, C31
 //@   safety -all
+//@   assert-call time.Parse: layout == time.RFC3339 && value == ginQuery(ctx, "start")
+//@   assert-call Encode: p.Start.ns == resultof(time.Parse, 0).ns
+//@   assert-call absolutePathInside: called(absolutePathInside) == 2 ==> called(Encode) == 1 && candidate == resultof(Encode)
+//@   assert-call os.Remove: called(os.Remove) == 1 && called(Encode) == 1 && called(time.Parse) == 1 && resultof(time.Parse, 1) == nil && called(absolutePathInside) == 2 && resultof(absolutePathInside, 1) == nil && name == resultof(absolutePathInside, 0)
 //@   assert-call strings.ReplaceAll: old == "%path" ==> validName(new) || has(c.Paths, new)
